@@ -600,8 +600,19 @@ func runMBTags(c *core.Ctx) {
 						continue
 					}
 					errObj := an.ObjOf(info, as.Lhs[0])
-					for _, cd := range g.CondAtoms(func(ex ast.Expr) bool { return isNeqNil(info, ex, errObj) }) {
-						if g.Dominates(d, cd) && g.GuardedBy(cl, cd, false) {
+					// the error may travel through copies before it is tested (`ret = err ... err2 = ret; if err2 != nil`)
+					copies := errCopies(info, lit.Body, errObj)
+					for _, blk := range g.CFG.Blocks {
+						cd, _ := g.Cond(blk)
+						if cd == nil {
+							continue
+						}
+						isT, nonNil := nilTestOn(g, info, cd, func(x ast.Expr) bool { return copies[an.ObjOf(info, x)] })
+						if !isT {
+							continue
+						}
+						after := g.Search(an.Query{From: d, Target: func(y ast.Node) bool { return y == ast.Node(cd) }}).Found
+						if after && g.GuardedBy(cl, cd, !nonNil) {
 							ok = true
 						}
 					}
